@@ -57,7 +57,7 @@ func init() {
 			NoDedupDepth: func(tier string) int { return 1 + noDedupLen(tier) },
 			StateCap:     stateCap,
 		},
-		Required: []string{"path-hit", "path-miss", "path-default", "recall-after-mutation", "replace", "remove",
+		Required: []string{"path-hit", "path-miss", "recall-after-mutation", "replace", "remove",
 			"arounds>=2", "afters>=2", "befores>=2", "primaries>=2", "lexicographic-conflict", "no-applicable-method",
 			"around-without-call-next-method", "call-after-remove"},
 		Bound:         bound,
@@ -485,8 +485,8 @@ func exec(spec string) (res engine.Result) {
 	m := newModel(cfg, refOpts{})
 	ck := &checker{cfg: cfg, m: m, res: &res, hist: hist}
 	var outcome []string
-	callsSeen := map[string]bool{}      // argument tuples called since the start
-	recallArmed := map[string]bool{}    // tuples called, then followed by a mutation
+	callsSeen := map[string]bool{}   // argument tuples called since the start
+	recallArmed := map[string]bool{} // tuples called, then followed by a mutation
 	lastMutation := byte(0)
 	for i, opstr := range hist[1:] {
 		last := i == len(hist)-2
@@ -784,80 +784,160 @@ func (ck *checker) check(how, args string, ex expect, obs callObs, pre generic.V
 		return
 	}
 	if equalStrings(ex.trace, obs.trace) {
-		if 0 < len(kinds) { // cannot happen: equal traces only hold applicable current tags
-			ck.fail(sig(strings.Join(kinds, ",")), detail("inconsistent classification"))
-			return
-		}
 		if ex.value != obs.value {
 			ck.fail(sig("value"), detail("wrong value"))
 		}
 		return
 	}
-	// expected entries that did not run / applicable entries that must not run here
-	expected := map[string]bool{}
+	if 0 < len(kinds) {
+		// stale, inapplicable or repeated methods ran: that is the finding
+		ck.fail(sig(strings.Join(kinds, ",")), detail("methods ran that must not run"))
+		return
+	}
+	// From here on every observed entry is a current, applicable method that ran once.
+	// (A) the :around chain
+	var expIns, obsIns, obsOuts, obsInner []string
 	for _, e := range ex.trace {
-		if !strings.HasSuffix(e, "-out") {
-			expected[baseTag(e)] = true
+		if strings.HasSuffix(e, "-in") {
+			expIns = append(expIns, baseTag(e))
 		}
 	}
-	missing, unexpected := map[int]bool{}, map[int]bool{}
-	for t := range expected {
-		if count[t] == 0 {
-			missing[slotOfTag(t)] = true
+	for _, e := range obs.trace {
+		switch {
+		case strings.HasSuffix(e, "-in"):
+			obsIns = append(obsIns, baseTag(e))
+		case strings.HasSuffix(e, "-out"):
+			obsOuts = append(obsOuts, baseTag(e))
+		default:
+			obsInner = append(obsInner, e)
 		}
 	}
-	for t := range count {
-		if inTable[t] && applicable[t] && !expected[t] {
-			unexpected[slotOfTag(t)] = true
+	if !equalStrings(expIns, obsIns) {
+		ran := map[string]bool{}
+		for _, t := range obsIns {
+			ran[t] = true
+		}
+		want := map[string]bool{}
+		var ranks []string
+		for i, t := range expIns {
+			want[t] = true
+			if !ran[t] {
+				ranks = append(ranks, strconv.Itoa(i+1))
+			}
+		}
+		extra := false
+		for _, t := range obsIns {
+			extra = extra || !want[t]
+		}
+		var k []string
+		if 0 < len(ranks) {
+			k = append(k, fmt.Sprintf("skipped#%s-of-%d", strings.Join(ranks, "+"), len(expIns)))
+		}
+		if extra {
+			k = append(k, "continued-past-an-around-that-does-not-call-next")
+		}
+		if len(k) == 0 {
+			k = append(k, "order")
+		}
+		ck.fail(sig("around-chain:"+strings.Join(k, ",")), detail("wrong :around chain"))
+	}
+	// (B) what must follow GIVEN the around chain that was actually entered (S3/S9: a
+	// skipped :around must not hide what the rest of the call does)
+	continues := len(obsIns) == 0 || obsIns[len(obsIns)-1][0] != 's'
+	var expInner []string
+	if continues {
+		expInner = append(expInner, ex.applicable[1]...)
+		expInner = append(expInner, ex.applicable[0][0])
+		for i := len(ex.applicable[2]) - 1; 0 <= i; i-- {
+			expInner = append(expInner, ex.applicable[2][i])
 		}
 	}
-	if 0 < len(missing) {
-		k := "missing:" + slotList(missing)
-		if missing[3] {
-			// which of the expected arounds (by rank, most specific = 1) were skipped
-			var ranks []string
-			var n int
-			for _, e := range ex.trace {
-				if strings.HasSuffix(e, "-in") {
-					n++
-					if count[baseTag(e)] == 0 {
-						ranks = append(ranks, strconv.Itoa(n))
+	var given []string
+	for _, t := range obsIns {
+		given = append(given, t+"-in")
+	}
+	given = append(given, expInner...)
+	var expOuts []string
+	for i := len(obsIns) - 1; 0 <= i; i-- {
+		if obsIns[i][0] != 's' {
+			expOuts = append(expOuts, obsIns[i])
+			given = append(given, obsIns[i]+"-out")
+		}
+	}
+	if equalStrings(given, obs.trace) {
+		v := "nil"
+		if continues {
+			v = ex.applicable[0][0]
+		}
+		for i := len(obsIns) - 1; 0 <= i; i-- {
+			if obsIns[i][0] == 's' {
+				v = obsIns[i]
+			} else {
+				v = "(" + obsIns[i] + " " + v + ")"
+			}
+		}
+		if v != obs.value {
+			ck.fail(sig("value"), detail("wrong value (for the :around chain that was entered, the value must be "+v+")"))
+		}
+		return
+	}
+	if !equalStrings(expInner, obsInner) {
+		ranI := map[string]bool{}
+		for _, t := range obsInner {
+			ranI[t] = true
+		}
+		wantI := map[string]bool{}
+		missing, unexpected := map[int]bool{}, map[int]bool{}
+		for _, t := range expInner {
+			wantI[t] = true
+			if !ranI[t] {
+				missing[slotOfTag(t)] = true
+			}
+		}
+		for _, t := range obsInner {
+			if !wantI[t] {
+				unexpected[slotOfTag(t)] = true
+			}
+		}
+		var k []string
+		if 0 < len(missing) {
+			k = append(k, "missing:"+slotList(missing))
+		}
+		if 0 < len(unexpected) {
+			k = append(k, "unexpected:"+slotList(unexpected))
+		}
+		if len(k) == 0 {
+			wrong := map[int]bool{}
+			for s := 0; s < 3; s++ {
+				var a, b []string
+				for _, e := range expInner {
+					if slotOfTag(e) == s {
+						a = append(a, e)
 					}
 				}
-			}
-			k += fmt.Sprintf("(around#%s-of-%d)", strings.Join(ranks, "+"), n)
-		}
-		kinds = append(kinds, k)
-	}
-	if 0 < len(unexpected) {
-		kinds = append(kinds, "unexpected:"+slotList(unexpected))
-	}
-	if len(kinds) == 0 {
-		// same methods ran: the order differs. Name the slots whose own order is wrong.
-		wrong := map[int]bool{}
-		for s := 0; s < 4; s++ {
-			var a, b []string
-			for _, e := range ex.trace {
-				if slotOfTag(e) == s {
-					a = append(a, e)
+				for _, e := range obsInner {
+					if slotOfTag(e) == s {
+						b = append(b, e)
+					}
+				}
+				if !equalStrings(a, b) {
+					wrong[s] = true
 				}
 			}
-			for _, e := range obs.trace {
-				if slotOfTag(e) == s {
-					b = append(b, e)
-				}
-			}
-			if !equalStrings(a, b) {
-				wrong[s] = true
+			if 0 < len(wrong) {
+				k = append(k, "order:"+slotList(wrong))
+			} else {
+				k = append(k, "order:between-qualifiers")
 			}
 		}
-		if 0 < len(wrong) {
-			kinds = append(kinds, "order:"+slotList(wrong))
-		} else {
-			kinds = append(kinds, "order:between-qualifiers")
-		}
+		ck.fail(sig(strings.Join(k, ",")), detail("wrong methods or order inside the :around chain"))
+		return
 	}
-	ck.fail(sig(strings.Join(kinds, ",")), detail("wrong methods or order"))
+	if !equalStrings(expOuts, obsOuts) {
+		ck.fail(sig("around-exit-order"), detail(":around methods do not return in reverse order of entry"))
+		return
+	}
+	ck.fail(sig("order:around-vs-inner"), detail(":around entries/exits interleaved wrongly with the inner methods"))
 }
 
 // lexConflict: two applicable specialiser tuples whose per-argument ranks
